@@ -208,6 +208,59 @@ def main():
             rep.nontrivial(common.digest([c['seq'], c['decl']]))
         tl.append({k: c[k] for k in ('cid', 'seq', 'decl', 'hier_all',
                                      'hier_last', 'ddmin')})
+    # ---- real hybrid runs: the passes of BOTH phases of one process --------
+    # (the option namespace and the detection result are shared state: what
+    # the hierarchical phase schedules after the ddmin phase has reduced the
+    # input must still be the enabled set of the ORIGINAL input and options)
+    import runs
+    from concurrent.futures import ThreadPoolExecutor
+    rseqs = [[], [['mut', 'BinaryReduction', True]],
+             [['group', 'bv', False], ['mut', 'BVReflexiveNand', True]],
+             [['all', '', False], ['group', 'core', True]],
+             [['mut', 'EraseNode', False]], [['group', 'smtlib', False]]]
+    rprofiles = [['bv'], ['arithmetic', 'bv'], [], ['strings', 'fp']]
+    rcases = []
+    for k, sq in enumerate(rseqs):
+        for pr in (rprofiles if a.tier == 'thorough' else
+                   [rprofiles[k % len(rprofiles)],
+                    rprofiles[(k + 1) % len(rprofiles)]]):
+            lines = ['(set-logic ALL)', '(declare-const plain Bool)']
+            for g in pr:
+                lines.append(DECLS[g][0])     # unused: ddmin erases it
+            lines += ['(assert (= (bvnand #x0f #x0f) #xf0))',
+                      '(assert (or plain plain plain plain plain plain plain '
+                      'plain plain))', '(check-sat)']
+            rcases.append({'seq': sq, 'decl': pr,
+                           'input': '\n'.join(lines) + '\n'})
+
+    def real_run(kc):
+        k, c = kc
+        wd = common.subscratch(f'c14-run{k}')
+        return runs.run_ddsmt(
+            wd, c['input'], {'mode': 'contains', 'markers': ['bvnand', 'or']},
+            ['--strategy', 'hybrid', '-j', '1'] + to_argv(c['seq'], optmap),
+            timeout=300)
+
+    with ThreadPoolExecutor(6) as ex:
+        rres = list(ex.map(real_run, enumerate(rcases)))
+    nreal = 0
+    for c, rr in zip(rcases, rres):
+        rep.count()
+        ps = [e for e in rr.events if e['ev'] == 'passes']
+        hp = [e for e in ps if e['strat'] == 'hier']
+        dp = [e for e in ps if e['strat'] == 'ddmin']
+        if rr.status != 0 or not hp or not dp:
+            continue   # C04's business
+        nreal += 1
+        cid = len(byid)
+        c2 = dict(c, cid=cid, argv=to_argv(c['seq'], optmap) + ['(hybrid run)'],
+                  hier_all=sorted({n for p in hp[-1]['passes'] for n in p}),
+                  hier_last=sorted(set(hp[-1]['passes'][-1])),
+                  ddmin=sorted({n for p in dp[0]['passes'] for n in p}))
+        byid[cid] = c2
+        tl.append({k2: c2[k2] for k2 in ('cid', 'seq', 'decl', 'hier_all',
+                                         'hier_last', 'ddmin')})
+    rep.cov['real_hybrid_runs'] = nreal
     # TLC judges
     import conform  # noqa
     path = os.path.join(common.subscratch('c14'), 'cases.json')
